@@ -37,7 +37,26 @@ def m_F9_C08(sc, msg):
     return 'C08 spike' in msg and 'mirror' in msg and any(one_spike_on_edge(t) for t in sc['trains'])
 
 
-MATCH = {('F9', 'C02'): m_F9_C02, ('F9', 'C08'): m_F9_C08}
+def m_F12(sc, msg):
+    """compiled-kernel configuration only: two trains that are each a single spike on t_end"""
+    if sc.get('_backend') != 'pyx':
+        return False
+    on_end = [t for t in sc['trains'] if len(t[0]) == 1 and t[0][0] == t[2]]
+    raw_on_end = [t for t in sc.get('raw', []) if len(set(t[0])) == 1 and list(t[0])[0] == t[2]]
+    # a train is also compared with its own copy (identity clauses), so one such train suffices
+    return len(on_end) + len(raw_on_end) >= 1 and ('nan' in msg.lower() or 'differs' in msg or 'non-finite' in msg or 'equal copy' in msg or 'outside' in msg or 'symmetric' in msg)
+
+
+def m_F10(sc, msg):
+    """compiled-kernel configuration only: at least two trains without spikes and a spike-train-order value"""
+    if sc.get('_backend') != 'pyx':
+        return False
+    return sum(1 for t in sc['trains'] if len(t[0]) == 0) >= 2 and 'order' in msg
+
+
+MATCH = {('F9', 'C02'): m_F9_C02, ('F9', 'C08'): m_F9_C08,
+         ('F12', 'C05'): m_F12, ('F12', 'C07'): m_F12, ('F12', 'C18'): m_F12, ('F12', 'C14'): m_F12, ('F12', 'C13'): m_F12,
+         ('F10', 'C05'): m_F10}
 
 
 def match(prop, sc, msg, findings):
